@@ -12,7 +12,7 @@ from __future__ import annotations
 import itertools
 from typing import Any, Callable, Iterable
 
-from .terms import EMPTY, FALSE, NONE, TRUE, Term, alpha_normalise, is_term, mapterm, show, subst, subterms
+from .terms import scope_normalise, EMPTY, FALSE, NONE, TRUE, Term, alpha_normalise, is_term, mapterm, show, subst, subterms
 
 Formula = Any  # True | False | ('atom', term) | ('not', f) | ('and', f...) | ('or', f...)
 
@@ -250,6 +250,8 @@ class SetAlg:
         return t == EMPTY or (t[0] in ("listlit", "tuplelit", "setlit", "dictlit") and not t[1])
 
     def member(self, e: Term, t: Term) -> Formula:
+        if t[0] == "call" and isinstance(t[1], str) and t[1].split(".")[-1] == "chain" and not t[1].endswith("from_iterable") and len(t[2]) >= 1 and not t[3]:
+            return f_or(*[self.member(e, a_) for a_ in t[2]])  # chain(A, B): in A or in B
         if t[0] == "call" and t[1] == "zip" and len(t[2]) == 2 and e[0] == "tuplelit" and len(e[1]) == 2 and not getattr(self, "_in_zip", False):
             # (x, y) in zip(X, Y): x is an element of X and y one of Y (necessary; which ones are paired is left to the atom)
             self._in_zip = True
@@ -391,6 +393,15 @@ class SetAlg:
                 yes = gens[:i] + ((gp, gi_s[2], tuple(gc) + (gi_s[1],)),) + gens[i + 1:]
                 no = gens[:i] + ((gp, gi_s[3], tuple(gc) + (("not", gi_s[1]),)),) + gens[i + 1:]
                 return self._distribute(payload, yes) + self._distribute(payload, no)
+            if gi_s[0] == "bigunion" and is_term(gi_s[1]) and gi_s[1][0] == "comp" and gi_s[1][1] in ("set", "list", "gen") \
+                    and not (isinstance(gi_s[1][2], tuple) and gi_s[1][2] and gi_s[1][2][0] == "%payload"):
+                # for p in ⋃_{n in V} X(n)   =   for n in V for p in X(n)
+                inner = gi_s[1]
+                bound_inner = {v for g_ in inner[3] for v in subterms(g_[0]) if v[0] == "var"}
+                used_outside = {v for v in subterms((payload, gens[:i], gens[i + 1:], gc, gp)) if v[0] == "var"}
+                if not (bound_inner & used_outside):
+                    new = gens[:i] + tuple(inner[3]) + ((gp, inner[2], gc),) + gens[i + 1:]
+                    return self._distribute(payload, new)
             if gi_s[0] in ("listlit", "tuplelit", "setlit") and len(gi_s[1]) == 1 and gi_s[1][0][0] != "star" and gp[0] == "var" and i > 0:
                 # for y in (v,)  binds y to v
                 m = {gp: gi_s[1][0]}
@@ -510,6 +521,60 @@ class SetAlg:
             # ⋃_{s ∈ S} s  is  ⋃ S
             return ("atom", ("in", e, ("bigunion", self.canon(("setof", comp[3][0][1])))))
         q, gens = self.strip(comp[2]), tuple(comp[3])
+        for i_, (gp_, gi_, gc_) in enumerate(gens):
+            gs_ = self.strip(gi_)
+            if gs_[0] == "accum":
+                c_ = accum_as_comp(gs_)
+                if c_ is not None:
+                    gs_ = c_
+            if gs_[0] == "comp" and gs_[1] in ("list", "gen", "set") and gs_[3] and gp_[0] == "var" \
+                    and not (isinstance(gs_[2], tuple) and gs_[2] and gs_[2][0] == "%payload"):
+                # for p in [f(y) for y in Y if c]   =   for y in Y if c, with p := f(y)
+                inner_bound = {v for g_ in gs_[3] for v in subterms(g_[0]) if v[0] == "var"}
+                outside = {v for v in subterms((q, gens[:i_], gens[i_ + 1:], gc_)) if v[0] == "var"}
+                if not (inner_bound & outside):
+                    m_ = {gp_: gs_[2]}
+                    inner = list(gs_[3])
+                    if gc_:
+                        lp, li, lc = inner[-1]
+                        inner[-1] = (lp, li, tuple(lc) + tuple(subst(c0, m_) for c0 in gc_))
+                    new = gens[:i_] + tuple(inner) + tuple((g_[0], subst(g_[1], m_), tuple(subst(c0, m_) for c0 in g_[2])) for g_ in gens[i_ + 1:])
+                    return self._member_part(e, ("bigunion", ("comp", "set", subst(comp[2], m_), new)))
+            if gp_[0] == "var" and (gs_[0] in ("Ed", "Eu") or (gs_[0] == "call" and isinstance(gs_[1], str) and gs_[1].split(".")[-1] == "combinations"
+                                                            and len(gs_[2]) == 2 and gs_[2][1] == ("const", 2))):
+                # an element of a collection of pairs, named as a whole: named by its two components instead (p[0], p[1] are then read off)
+                self._pcount = getattr(self, "_pcount", 0) + 1
+                p0, p1 = ("var", f"%pp{self._pcount}_0"), ("var", f"%pp{self._pcount}_1")
+                pr = ("tuplelit", (p0, p1))
+
+                def fx(s_, _v=gp_, _p0=p0, _p1=p1, _pr=pr):
+                    if s_[0] == "index" and s_[1] == _v and s_[2] in (("const", 0), ("const", 1)):
+                        return _p0 if s_[2] == ("const", 0) else _p1
+                    if s_[0] == "proj" and s_[1] == _v and s_[2] in (0, 1):
+                        return _p0 if s_[2] == 0 else _p1
+                    if s_ == _v:
+                        return _pr
+                    return None
+                new = gens[:i_] + ((pr, gi_, tuple(mapterm(c_, fx) for c_ in gc_)),) + tuple(
+                    (g_[0], mapterm(g_[1], fx), tuple(mapterm(c_, fx) for c_ in g_[2])) for g_ in gens[i_ + 1:])
+                return self._member_part(e, ("bigunion", ("comp", "set", mapterm(comp[2], fx), new)))
+            if gs_[0] == "call" and isinstance(gs_[1], str) and gs_[1].split(".")[-1] == "chain" and not gs_[1].endswith("from_iterable") and len(gs_[2]) >= 2 and not gs_[3]:
+                gs_ = ("concat",) + tuple(gs_[2]) if len(gs_[2]) == 2 else ("concat", gs_[2][0], ("call", gs_[1], tuple(gs_[2][1:]), ()))
+            if gs_[0] == "concat" and len(gs_) == 3:
+                # for p in A followed by B: the elements drawn from A together with those drawn from B
+                return f_or(*[self._member_part(e, ("bigunion", ("comp", "set", comp[2], gens[:i_] + ((gp_, part_, gc_),) + gens[i_ + 1:]))) for part_ in gs_[1:]])
+            if gs_[0] == "call" and isinstance(gs_[1], str) and (gs_[1] in CHAIN_NAMES or gs_[1].endswith("chain.from_iterable")) and len(gs_[2]) == 1 \
+                    and not gs_[1].endswith("itertools.chain") and gs_[1] != "itertools.chain":
+                gs_ = ("bigunion", self.strip(gs_[2][0]))
+            if gs_[0] == "bigunion" and is_term(gs_[1]) and gs_[1][0] == "comp" and gs_[1][1] in ("set", "list", "gen") \
+                    and not (isinstance(gs_[1][2], tuple) and gs_[1][2] and gs_[1][2][0] == "%payload"):
+                # for p in ⋃_{n in V} X(n)   =   for n in V for p in X(n)
+                inner = gs_[1]
+                bound_inner = {v for g_ in inner[3] for v in subterms(g_[0]) if v[0] == "var"}
+                used_outside = {v for v in subterms((q, gens[:i_], gens[i_ + 1:], gc_, gp_)) if v[0] == "var"}
+                if not (bound_inner & used_outside):
+                    new = gens[:i_] + tuple(inner[3]) + ((gp_, inner[2], gc_),) + gens[i_ + 1:]
+                    return self._member_part(e, ("bigunion", ("comp", "set", comp[2], new)))
         # one-point rule: ⋃_{..., v in T if c, ...} {v}  with v not used by later generators
         if q[0] in ("setlit", "listlit", "tuplelit") and len(q[1]) == 1:
             v = q[1][0]
@@ -848,6 +913,7 @@ class SetAlg:
             f = self.member(x, t)
         finally:
             self._depth -= 1
+        f = _normalise_atoms(f)
         atoms = sorted(atoms_of(f), key=akey)
         # drop atoms the table does not depend on
         keep = []
@@ -894,6 +960,15 @@ class SetAlg:
         h = t[0]
         if (h == "call" and len(t) < 4) or (h == "meth" and len(t) < 5):
             return (h,) + tuple(self.canon(x) for x in t[1:])  # not a call term (a data tuple that happens to start with the word)
+        if h == "index" and len(t) == 3 and is_term(t[1]) and t[1][0] in ("tuplelit", "listlit") and t[2][0] == "const" and isinstance(t[2][1], int) \
+                and not any(x[0] == "star" for x in t[1][1]) and -len(t[1][1]) <= t[2][1] < len(t[1][1]):
+            return self.canon(t[1][1][t[2][1]])  # (a, b)[0] is a
+        if h == "len" and len(t) == 2 and is_term(t[1]):
+            a0 = t[1]
+            while a0[0] == "call" and a0[1] in ("sorted", "list", "tuple", "reversed") and len(a0[2]) == 1:
+                a0 = a0[2][0]  # ordering / copying a collection keeps its length
+            if a0 is not t[1]:
+                return ("len", self.canon(a0))
         if h in ("listlit", "tuplelit") and t[1] and all(x[0] == "star" for x in t[1]):
             # [*a, *b] = a followed by b
             out = t[1][0][1]
@@ -1017,6 +1092,19 @@ class SetAlg:
     def _canon_cond(self, c: Term) -> Term:
         f = self.cond(c)
         return ("COND", formula_key(f))
+
+
+def _normalise_atoms(f: Formula) -> Formula:
+    """the bound variables inside every atom get their canonical names, so that two spellings of one atom (fresh names from two evaluations
+    of the same sub-term) are ONE atom of the truth table"""
+    if f is True or f is False:
+        return f
+    if f[0] == "atom":
+        try:
+            return ("atom", scope_normalise(f[1]))
+        except Exception:  # noqa: BLE001
+            return f
+    return (f[0],) + tuple(_normalise_atoms(g) for g in f[1:])
 
 
 def _discard_form(t: Term) -> Term:
